@@ -670,6 +670,21 @@ def rule_guard_dominance(rep: Report, repo: Repo):
     DENSE = lambda side: (f"np.hstack([_v0.toarray() if sparse.issparse(_v0) else _v0 for _v0 in {side}_subspaces])",)
     SYMST = lambda side: (f"sympy.Matrix.hstack(*{side}_subspaces)",)
     n_br = 0
+    # a check made subspace by subspace sees only the diagonal blocks L_i^H R_i of the overlap matrix
+    cparams = [a_.arg for a_ in cb.args.args[:2]]
+    for lp_ in [n_ for n_ in own_nodes(cb) if isinstance(n_, ast.For)]:
+        it_ = lp_.iter
+        pairwise = isinstance(it_, ast.Call) and call_name(it_) == "zip" and len(it_.args) >= 2 and {norm(a_) for a_ in it_.args[:2]} == set(cparams) \
+            and isinstance(lp_.target, ast.Tuple) and len(lp_.target.elts) == 2
+        raises_in = [r_ for r_ in ast.walk(lp_) if isinstance(r_, ast.Raise)]
+        if pairwise and raises_in:
+            tg = {x.id for x in ast.walk(lp_.target) if isinstance(x, ast.Name)}
+            whole = any(isinstance(x, ast.Name) and x.id in cparams for b_ in lp_.body for x in ast.walk(b_))
+            if not whole:
+                rep.fail(R, f"{MOD}::_check_biorthonormality tests the overlap of each subspace with itself only (loop over zip({', '.join(cparams)}))",
+                         f"the rejection inside the loop sees L_i^H R_i built from {sorted(tg)}; vectors of DIFFERENT subspaces that are not "
+                         "(bi)orthogonal (L_i^H R_j != 0) are accepted", loc(raises_in[0]))
+                return
     for kind in ("numeric", "symbolic", "other"):
         def atom(n, kind=kind):
             t = norm(canon(n))
